@@ -25,7 +25,7 @@ func registerC08() {
 		ID:    "C08",
 		Level: "exploration",
 		Rule: "a history is a PRNG sequence of 40-200 calls drawn from Decode (8 option sets), DecodeChained, CheckIntegrity (both modes), DecodeHeader, DecodeHeaderAndFileID, " +
-			"Header.MarshalJSON, Encode of API-built Files and Encode of decoded Files (both byte orders) over a pool of device files, model streams (incl. every accumulated " +
+			"Header.MarshalJSON, Encode of API-built Files, Encode of decoded Files (both byte orders), Encode into a writer that fails part-way and Encode of a File with an un-encodable string over a pool of device files, model streams (incl. every accumulated " +
 			"component source) and API-built Files; each history runs in its own process; after every call a digest of the result (canonical content / bytes written / error text) " +
 			"is compared with (a) an immediate repetition of the call and (b) the digest of the same call made FIRST in a fresh process (one process per distinct call). " +
 			"Non-trivial: a call preceded by at least one other call whose digest was compared with its fresh-process baseline; distinct by (history, position)",
@@ -240,6 +240,17 @@ func c08Call(id string, known map[string]int) (digest string, err error) {
 					out += "|SECOND-ENCODE-DIFFERS"
 				}
 			}
+		case "EF": // Encode into a writer that fails on its n-th write
+			f := p.files[arg(1)]()
+			w := &failWriter{n: arg(2)}
+			e := fit.Encode(w, f, archOrder(0))
+			out = lib.ErrText(e)
+		case "EB": // Encode of a File holding a string that is not valid UTF-8
+			f := p.files[arg(1)]()
+			f.FileId.ProductName = "bad\xff\xfeutf8"
+			var buf bytes.Buffer
+			e := fit.Encode(&buf, f, archOrder(arg(2)))
+			out = lib.ErrText(e)
 		case "ED":
 			f, e := fit.Decode(bytes.NewReader(p.inputs[arg(1)]))
 			canonFile(f, known)
@@ -277,7 +288,15 @@ func c08RandomCall(rng *lib.Rand) string {
 		return fmt.Sprintf("DHF:%d", rng.Intn(len(p.inputs)))
 	case 8:
 		return fmt.Sprintf("HJ:%d", rng.Intn(len(p.inputs)))
-	case 9, 10:
+	case 9:
+		return fmt.Sprintf("E:%d:%d", rng.Intn(len(p.files)), rng.Intn(2))
+	case 10:
+		switch rng.Intn(3) {
+		case 0:
+			return fmt.Sprintf("EF:%d:%d", rng.Intn(len(p.files)), 1+rng.Intn(3))
+		case 1:
+			return fmt.Sprintf("EB:%d:%d", rng.Intn(len(p.files)), rng.Intn(2))
+		}
 		return fmt.Sprintf("E:%d:%d", rng.Intn(len(p.files)), rng.Intn(2))
 	default:
 		return fmt.Sprintf("ED:%d:%d", rng.Intn(len(p.inputs)), rng.Intn(2))
